@@ -198,6 +198,33 @@ pub fn check(scn: &Scenario, h: &History) -> Outcome {
     for m in findings_of(&p, &[Kind::Verdict, Kind::Fold, Kind::Phase, Kind::Notify]) {
         out.viol(m);
     }
+    // "for every action each middleware hook ...": the effect phase is entered for every action,
+    // vetoed ones included (DoneAction from before_reduce keeps the action from the reducers, it
+    // does not cancel the later phases): every build-time middleware's before_effect runs, up to
+    // and including the first one that answers BreakChain there
+    for (s, sd) in d.stores.iter().enumerate() {
+        let chain = &scn.stores[s].middlewares;
+        for run in &sd.runs {
+            let sc = &scn.actions[run.act as usize];
+            let mut expect = vec![];
+            for m in chain {
+                expect.push(*m);
+                if sc.verdict(*m, Hook::BeforeEffect) == Verdict::Break {
+                    break;
+                }
+            }
+            let seen: Vec<CompId> = h.recs[run.first..=run.last].iter().filter_map(|r| match &r.ev {
+                Ev::MwIn { comp, hook: Hook::BeforeEffect, act, .. } if *act == run.act => Some(*comp),
+                _ => None,
+            }).collect();
+            if seen != expect {
+                out.viol(format!(
+                    "action {}{}: before_effect was called for middlewares {:?}, expected {:?} (every middleware, up to the first BreakChain of that phase)",
+                    run.act, if chain.iter().any(|m| sc.verdict(*m, Hook::BeforeReduce) == Verdict::Done) { " (vetoed in before_reduce)" } else { "" }, seen, expect
+                ));
+            }
+        }
+    }
     let mut v = vec![];
     let mut lost = vec![];
     // (with the late-subscriber variant the follow-ups are not awaited before the stop)
